@@ -268,6 +268,9 @@ def run(ctx):
         run_demo(ctx, 'demo_tr3.py', [1 + ctx.seed], 'c19-code-vs-generated-vs-model',
                  'moment / leaf_moment vs generated definitions vs model', env_extra=dict(DEMO_SECTIONS='d'))
         if ctx.n_new() == 0:
+            run_demo(ctx, 'demo_tr5eval.py', [1 + ctx.seed], 'c19-moment-loop-generated',
+                     'moments.moment / eval_bottom_up: implementation = the LOOPS generated from the source = model')
+        if ctx.n_new() == 0:
             run_demo(ctx, 'demo_leaves.py', [20260929 + ctx.seed], 'c19-leaf-families-vs-model',
                      'leaf pdf / cdf / ppf / moments / modes / sampling law of every univariate family against the exact leaf theory (LeafQ)')
 
